@@ -43,6 +43,8 @@ pub type MainPersister = KVVPersister<MemoryKVVStore, JsonFormat>;
 const CHANNEL_VALUE: u64 = 3_000_000;
 const INITIAL_COMMITMENT_NUMBER: u64 = (1 << 48) - 1;
 const CP_SEED: [u8; 32] = [3u8; 32];
+/// peer id of the channel in `world h`
+pub const HPEER: [u8; 33] = [2u8; 33];
 
 pub struct Sim {
     pub persister: Arc<SimPersister>,
@@ -70,6 +72,8 @@ pub struct Sim {
     /// fault injection: while set, writes to the (backup) store / to the main store are refused
     pub fail_store: Arc<std::sync::atomic::AtomicBool>,
     pub fail_main: Arc<std::sync::atomic::AtomicBool>,
+    /// `world h`
+    pub hworld: bool,
 }
 
 fn services(persister: Arc<dyn Persist>, clock: Arc<ManualClock>, perm: bool) -> NodeServices {
@@ -173,9 +177,15 @@ impl Sim {
         // `world nocp`: the node starts at the genesis block instead of the compiled-in checkpoint, so its
         // tracker stays below the checkpoint height (a signer that has synced only a few blocks)
         let nocp = first_op == "world nocp";
+        // `world h`: the ready channel is created through `new_channel(dbid, peer)`, so that the real
+        // protocol handler (vls-protocol-signer `ChannelHandler` for that peer/dbid) addresses it; its initial
+        // commitment is not yet validated (as in `world fresh`).  Ops `HVH` / `HRV` go through the handler.
+        let hworld = first_op == "world h";
+        let fresh = fresh || hworld;
         let persister: Arc<SimPersister> =
             Arc::new(KVVPersister(CloudKVVStore::new(MemoryKVVStore::new([7u8; 16])), JsonFormat));
-        let clock = Arc::new(ManualClock::new(Duration::from_secs(1_600_000_000)));
+        // (a sub-second part: timestamps taken from the clock must survive the store exactly)
+        let clock = Arc::new(ManualClock::new(Duration::new(1_600_000_000, 250_000_000)));
         let seed = [9u8; 32];
         let config = NodeConfig {
             network: Network::Testnet,
@@ -216,7 +226,16 @@ impl Sim {
             // fund_test_channel, but setup_channel gets a permanent id different from id0
             let incoming = CHANNEL_VALUE + 2_000_000;
             let change = incoming - CHANNEL_VALUE - 1000;
-            let mut chan_ctx = test_chan_ctx(&node_ctx, 1, CHANNEL_VALUE);
+            let mut chan_ctx = if hworld {
+                let peer = HPEER;
+                let (channel_id, _) = node_ctx.node.new_channel(1, &peer, &node_ctx.node).expect("new_channel");
+                let mut setup = make_test_channel_setup();
+                setup.channel_value_sat = CHANNEL_VALUE;
+                let counterparty_keys = make_test_counterparty_keys(&node_ctx, &channel_id, CHANNEL_VALUE);
+                TestChannelContext { channel_id, setup, counterparty_keys }
+            } else {
+                test_chan_ctx(&node_ctx, 1, CHANNEL_VALUE)
+            };
             let mut tx_ctx = TestFundingTxContext::new();
             tx_ctx.add_wallet_input(&node_ctx, SpendType::P2wpkh, 1, incoming);
             tx_ctx.add_wallet_output(&node_ctx, SpendType::P2wpkh, 1, change);
@@ -259,6 +278,7 @@ impl Sim {
             main,
             fail_store,
             fail_main,
+            hworld,
         }
     }
 
@@ -317,6 +337,13 @@ impl Sim {
     /// `phase1`: through `validate_holder_commitment_tx` (the caller hands over the transaction and
     /// its witness scripts) instead of the phase-2 entry point
     pub fn validate_holder_with(&mut self, d: i64, good_sig: bool, var: u64, phase1: bool) -> (Outcome, usize) {
+        self.validate_holder_full(d, good_sig, var, phase1, 0)
+    }
+
+    /// `then`: what the protocol handler does in the same request after the validation succeeded
+    /// (vls-protocol-signer ValidateCommitmentTx / ValidateCommitmentTx2 arms): 1 = protocol with a separate
+    /// revoke message (next point for n > 0, activation for n = 0), 2 = old protocol (revoke at once)
+    pub fn validate_holder_full(&mut self, d: i64, good_sig: bool, var: u64, phase1: bool, then: u8) -> (Outcome, usize) {
         let (next, ..) = self.counters();
         let n = (next as i64 + d).max(0) as u64;
         let (to_holder, to_cp, offered, received, feerate) = self.content(var);
@@ -326,7 +353,7 @@ impl Sim {
         self.txn(|s| {
             // the commitment is built (and counter-signed) for number n; building needs the point,
             // which the channel only hands out for n <= next: use the helper's number juggling
-            let build_n = n.min(next);
+            let build_n = n.min(next + 1);
             let mut ctx = channel_commitment(&s.node_ctx, &s.chan_ctx, build_n, feerate, to_holder, to_cp, offered.clone(), received.clone());
             let (mut csig, hsigs) = counterparty_sign_holder_commitment(&s.node_ctx, &s.chan_ctx, &mut ctx);
             if !good_sig {
@@ -343,10 +370,96 @@ impl Sim {
                     let htlcs = Channel::htlcs_info2_to_oic(&offered, &received);
                     let scripts = build_tx_scripts(trusted.keys(), to_holder, to_cp, &htlcs, &parameters, &chan.keys.pubkeys().funding_pubkey, &cp_funding).expect("scripts");
                     let witscripts: Vec<Vec<u8>> = scripts.iter().map(|s| s.as_bytes().to_vec()).collect();
-                    chan.validate_holder_commitment_tx(&trusted.built_transaction().transaction, &witscripts, n, feerate, offered.clone(), received.clone(), &csig, &hsigs)
+                    chan.validate_holder_commitment_tx(&trusted.built_transaction().transaction, &witscripts, n, feerate, offered.clone(), received.clone(), &csig, &hsigs)?;
                 } else {
-                    chan.validate_holder_commitment_tx_phase2(n, feerate, to_holder, to_cp, offered.clone(), received.clone(), &csig, &hsigs)
+                    chan.validate_holder_commitment_tx_phase2(n, feerate, to_holder, to_cp, offered.clone(), received.clone(), &csig, &hsigs)?;
                 }
+                match then {
+                    1 if n > 0 => chan.get_per_commitment_point(n + 1).map(|_| ()),
+                    1 => chan.activate_initial_commitment().map(|_| ()),
+                    2 => chan.revoke_previous_holder_commitment(n).map(|_| ()),
+                    _ => Ok(()),
+                }
+            })
+        })
+    }
+
+    /// a protocol handler for the channel of `world h` at the given protocol version
+    fn channel_handler(&self, ver: u32) -> vls_protocol_signer::handler::ChannelHandler {
+        use vls_protocol::msgs::{self, Message};
+        use vls_protocol_signer::handler::{Handler, InitHandler, RootHandler};
+        let mut init = InitHandler::new(0, self.node(), Arc::new(vls_protocol_signer::approver::PositiveApprover()), ver);
+        let m = msgs::HsmdInit {
+            key_version: vls_protocol::model::Bip32KeyVersion { pubkey_version: 0, privkey_version: 0 },
+            chain_params: lightning_signer::bitcoin::BlockHash::all_zeros(),
+            encryption_key: None,
+            dev_privkey: None,
+            dev_bip32_seed: None,
+            dev_channel_secrets: None,
+            dev_channel_secrets_shaseed: None,
+            hsm_wire_min_version: 2,
+            hsm_wire_max_version: ver,
+        };
+        let (done, _) = init.handle(Message::HsmdInit(m)).expect("hsmd init");
+        assert!(done);
+        let root: RootHandler = init.into();
+        root.for_new_client(1, vls_protocol::model::PubKey(HPEER), 1)
+    }
+
+    /// `ValidateCommitmentTx2` through the real protocol handler (`world h`); `ver` 6: the revocation is a
+    /// separate message, `ver` 4: the handler revokes in the same request
+    pub fn handler_validate(&mut self, d: i64, good_sig: bool, var: u64, ver: u32) -> (Outcome, usize) {
+        use vls_protocol::model::{BitcoinSignature, Htlc, Sha256, Signature as WireSig};
+        use vls_protocol::msgs::{self, Message};
+        use vls_protocol_signer::handler::Handler;
+        let (next, ..) = self.counters();
+        let n = (next as i64 + d).max(0) as u64;
+        let (to_holder, to_cp, offered, received, feerate) = self.content(var);
+        let (to_holder, to_cp, offered, received, feerate) =
+            if n == 0 { (CHANNEL_VALUE - 1_000, 0, vec![], vec![], 0) } else { (to_holder, to_cp, offered, received, feerate) };
+        self.txn(|s| {
+            let build_n = n.min(next + 1);
+            let mut ctx = channel_commitment(&s.node_ctx, &s.chan_ctx, build_n, feerate, to_holder, to_cp, offered.clone(), received.clone());
+            let (mut csig, hsigs) = counterparty_sign_holder_commitment(&s.node_ctx, &s.chan_ctx, &mut ctx);
+            if !good_sig {
+                let mut other = channel_commitment(&s.node_ctx, &s.chan_ctx, build_n, feerate, to_holder - 1, to_cp + 1, offered.clone(), received.clone());
+                csig = counterparty_sign_holder_commitment(&s.node_ctx, &s.chan_ctx, &mut other).0;
+            }
+            // the wire sides: LOCAL = offered by us
+            let mut htlcs: Vec<Htlc> = vec![];
+            for (side, l) in [(Htlc::LOCAL, &offered), (Htlc::REMOTE, &received)] {
+                for x in l {
+                    htlcs.push(Htlc { side, amount: x.value_sat * 1000, payment_hash: Sha256(x.payment_hash.0), ctlv_expiry: x.cltv_expiry });
+                }
+            }
+            let m = msgs::ValidateCommitmentTx2 {
+                commitment_number: n,
+                feerate,
+                to_local_value_sat: to_holder,
+                to_remote_value_sat: to_cp,
+                htlcs: htlcs.into(),
+                signature: BitcoinSignature { signature: WireSig(csig.serialize_compact()), sighash: 1 },
+                htlc_signatures: hsigs.iter().map(|x| BitcoinSignature { signature: WireSig(x.serialize_compact()), sighash: 1 }).collect::<Vec<_>>().into(),
+            };
+            let h = s.channel_handler(ver);
+            h.handle(Message::ValidateCommitmentTx2(m)).map(|_| ()).map_err(|e| match e {
+                vls_protocol_signer::handler::Error::Signing(st) => st,
+                other => Status::internal(format!("{:?}", other)),
+            })
+        })
+    }
+
+    /// `RevokeCommitmentTx` through the real protocol handler (`world h`)
+    pub fn handler_revoke(&mut self, d: i64) -> (Outcome, usize) {
+        use vls_protocol::msgs::{self, Message};
+        use vls_protocol_signer::handler::Handler;
+        let (next, ..) = self.counters();
+        let n = (next as i64 - 1 + d).max(0) as u64;
+        self.txn(|s| {
+            let h = s.channel_handler(6);
+            h.handle(Message::RevokeCommitmentTx(msgs::RevokeCommitmentTx { commitment_number: n })).map(|_| ()).map_err(|e| match e {
+                vls_protocol_signer::handler::Error::Signing(st) => st,
+                other => Status::internal(format!("{:?}", other)),
             })
         })
     }
@@ -697,7 +810,17 @@ impl Sim {
         let p2: Arc<dyn Persist> = Arc::new(KVVPersister(store2, JsonFormat));
         let nodes = p2.get_nodes().map_err(|e| format!("{:?}", e))?;
         let (node_id, entry) = nodes.into_iter().next().ok_or("no node in store")?;
-        Node::restore_node(&node_id, entry, &self.seed, services(p2.clone(), self.clock.clone(), self.perm)).map_err(|e| format!("{:?}", e))
+        // a store the signer cannot come back from (restore aborts) is reported like a refused restore
+        let r = std::panic::catch_unwind(std::panic::AssertUnwindSafe(|| {
+            Node::restore_node(&node_id, entry, &self.seed, services(p2.clone(), self.clock.clone(), self.perm))
+        }));
+        match r {
+            Ok(r) => r.map_err(|e| format!("{:?}", e)),
+            Err(e) => {
+                let msg = if let Some(s) = e.downcast_ref::<String>() { s.clone() } else if let Some(s) = e.downcast_ref::<&str>() { s.to_string() } else { "?".into() };
+                Err(format!("restore aborted: {}", msg.chars().take(160).collect::<String>()))
+            }
+        }
     }
 
     /// Replace the running node by one restored from the store (a real restart).
@@ -759,7 +882,7 @@ pub fn view(node: &Node, durable_only: bool) -> BTreeMap<String, String> {
     m.insert("node.allowlist".into(), node.allowlist().unwrap_or_default().join(","));
     {
         let st = node.get_state();
-        let mut inv: Vec<String> = st.invoices.iter().map(|(h, p)| format!("{}:{}:{}", hex::encode(h.0), p.amount_msat, hex::encode(p.invoice_hash))).collect();
+        let mut inv: Vec<String> = st.invoices.iter().map(|(h, p)| format!("{}:{}:{}:{}:{:?}:{:?}:{}:{:?}", hex::encode(h.0), p.amount_msat, hex::encode(p.invoice_hash), p.payee, p.duration_since_epoch, p.expiry_duration, p.is_fulfilled, p.payment_type)).collect();
         inv.sort();
         m.insert("node.invoices".into(), inv.join(","));
         m.insert("node.allowlist.len".into(), st.allowlist.len().to_string());
@@ -848,6 +971,13 @@ pub fn exec_op(sim: &mut Sim, op: &str) -> (Outcome, usize) {
     match t.as_slice() {
         ["vh", d, sig, var] => sim.validate_holder(num(d), *sig == "g", num(var) as u64),
         ["vh1", d, sig, var] => sim.validate_holder_with(num(d), *sig == "g", num(var) as u64, true),
+        ["HVH", d, sig, var] => { assert!(sim.hworld, "HVH outside world h"); sim.handler_validate(num(d), *sig == "g", num(var) as u64, 6) }
+        ["HVHO", d, sig, var] => { assert!(sim.hworld, "HVHO outside world h"); sim.handler_validate(num(d), *sig == "g", num(var) as u64, 4) }
+        ["HRV", d] => { assert!(sim.hworld, "HRV outside world h"); sim.handler_revoke(num(d)) }
+        ["hvh", d, sig, var] => sim.validate_holder_full(num(d), *sig == "g", num(var) as u64, false, 1),
+        ["hvh1", d, sig, var] => sim.validate_holder_full(num(d), *sig == "g", num(var) as u64, true, 1),
+        ["hvho", d, sig, var] => sim.validate_holder_full(num(d), *sig == "g", num(var) as u64, false, 2),
+        ["hvh1o", d, sig, var] => sim.validate_holder_full(num(d), *sig == "g", num(var) as u64, true, 2),
         ["scp1", d, var] => sim.sign_cp_full(num(d), num(var) as u64, false, true),
         ["shr"] => sim.sign_holder_recovery(),
         ["shx", d, g] => sim.sign_holder_redundant(num(d), *g == "g"),
@@ -960,7 +1090,7 @@ pub fn gen_ops(rng: &mut Rng, len: usize) -> Vec<String> {
         }
         let d = *rng.pick(&[0i64, 0, 0, 0, 1, -1, 2, -2]);
         let op = match rng.below(30) {
-            0..=4 => format!("vh{} {} {} {}", if rng.chance(1, 4) { "1" } else { "" }, d, if rng.chance(4, 5) { "g" } else { "b" }, rng.below(12)),
+            0..=4 => format!("{}vh{}{} {} {} {}", if rng.chance(1, 3) { "h" } else { "" }, if rng.chance(1, 4) { "1" } else { "" }, "", d, if rng.chance(4, 5) { "g" } else { "b" }, rng.below(12)),
             5..=8 => format!("rv {}", d),
             9..=11 => format!("scp{} {} {}", if rng.chance(1, 4) { "1" } else { "" }, d, rng.below(12)),
             12..=14 => format!("cpr {} {}", d, if rng.chance(3, 4) { "g" } else { "b" }),
